@@ -24,6 +24,7 @@ struct rng { unsigned long long s; rng(unsigned long long x) : s(x * 28629335557
   unsigned next() { s ^= s << 13; s ^= s >> 7; s ^= s << 17; return (unsigned)(s >> 11); }
   int in(int lo, int hi) { return lo + (int)(next() % (unsigned)(hi - lo + 1)); } };
 static int g_next_id = 1;
+static std::map<int, long> g_site_of;   // allocation id -> index of the allocation site (tag) that created it
 
 template <class Dom> struct fuzz {
   variable_factory_t vfac; crab::tag_manager as_man; std::vector<z_var> sc, rf, rg; std::vector<std::string> trace; rng r;
@@ -37,6 +38,11 @@ template <class Dom> struct fuzz {
   bool check(Dom &d, const cset &cs, const char *what) {
     for (auto &c : cs) { Dom e(d); for (int k = 0; k < NS; k++) e += (sc[k] == z_number(c.s[k]));
       if (e.is_bottom()) { crab::outs() << "UNSOUND after " << what << ": scalars (x=" << c.s[0] << ",y=" << c.s[1] << ") not in " << d << "\n  trace:\n"; for (auto &t : trace) crab::outs() << "    " << t << "\n"; return false; } }
+    // C15: a definite answer of get_allocation_sites lists the site of every allocation a reference can point to
+    for (int p = 0; p < NR; p++) { std::vector<crab::allocation_site> sites; Dom q(d);
+      if (!q.get_allocation_sites(rf[p], sites)) continue;
+      for (auto &c : cs) { if (c.ref[p].first == 0) continue; long want = g_site_of[c.ref[p].first]; bool found = false; for (auto &st : sites) if ((long)st.index() == want) found = true;
+        if (!found) { crab::outs() << "UNSOUND after " << what << ": " << rf[p].name().str() << " points to an allocation made at site " << want << " which get_allocation_sites does not list (" << sites.size() << " sites) in " << d << "\n  trace:\n"; for (auto &t : trace) crab::outs() << "    " << t << "\n"; return false; } } }
     return true; }
   static void cap(cset &cs, rng &r) { while (cs.size() > 100) { auto it = cs.begin(); std::advance(it, r.next() % cs.size()); cs.erase(it); } }
   bool all_defined(const cset &cs, int ref) { for (auto &c : cs) if (c.ref[ref].first == 0) return false; return true; }
@@ -46,8 +52,9 @@ template <class Dom> struct fuzz {
     int k = r.in(0, 99); std::ostringstream os;
     if (k < 16) { // allocation
       int p = r.in(0, NR - 1); os << rf[p].name().str() << " := make_ref(" << rg[region_of(p)].name().str() << ")"; log(os.str());
-      d.ref_make(rf[p], rg[region_of(p)], size4, as_man.mk_tag());
-      int id = ++g_next_id; cset n; for (auto s : cs) { s.ref[p] = addr_t(id, 0); n.insert(s); } cs = n; return check(d, cs, "make_ref");
+      crab::tag site = as_man.mk_tag();
+      d.ref_make(rf[p], rg[region_of(p)], size4, site);
+      int id = ++g_next_id; g_site_of[id] = (long)site.index(); cset n; for (auto s : cs) { s.ref[p] = addr_t(id, 0); n.insert(s); } cs = n; return check(d, cs, "make_ref");
     } else if (k < 36) { // store
       int p = r.in(0, NR - 1); if (!all_defined(cs, p)) return true; bool cst = r.in(0, 1); int val = r.in(-4, 4), x = r.in(0, NS - 1);
       os << "store(" << rf[p].name().str() << ", " << (cst ? std::to_string(val) : sc[x].name().str()) << ")"; log(os.str());
@@ -103,6 +110,9 @@ template <class Dom> int drive(const char *name, unsigned long long first, int c
 int main(int argc, char **argv) {
   crab::CrabEnableWarningMsg(false);
   region_domain_params p(true, true, true, false, true); crab_domain_params_man::get().update_params(p);
+  // domain parameters: PARAMS="array_adaptive.is_smashable=false,region.tag_analysis=false,..."
+  if (const char *ps = getenv("PARAMS")) { std::string p(ps); size_t i = 0; while (i < p.size()) { size_t j = p.find(',', i); if (j == std::string::npos) j = p.size(); std::string kv = p.substr(i, j - i); size_t e = kv.find('=');
+      if (e != std::string::npos) crab::domains::crab_domain_params_man::get().set_param(kv.substr(0, e), kv.substr(e + 1)); i = j + 1; } }
   std::string dn = argc > 1 ? argv[1] : "rgnint";
   unsigned long long first = argc > 2 ? strtoull(argv[2], 0, 10) : 1; int count = argc > 3 ? atoi(argv[3]) : 100, steps = argc > 4 ? atoi(argv[4]) : 10;
 #define D(n, T) if (dn == n) return drive<T>(n, first, count, steps) ? 1 : 0;
